@@ -22,6 +22,7 @@ import (
 	"encoding/json"
 	"fmt"
 	"hash/fnv"
+	stdbig "math/big"
 	"math/rand"
 	"os"
 	"sort"
@@ -60,6 +61,49 @@ type config struct {
 	Pools     []poolSpec // balancer pools (equal weights, no fee) registered as protorev routes for their pair
 	Lockable  []int64    // lockable durations in seconds
 	Now       int64
+	Big       bool // a "big" history: amounts of foo are counted in units of 10^12 (see bigUnit)
+}
+
+// "big" histories.  The specification's integers are TLC's (32 bit), real reward balances of 18-decimals tokens are
+// not: in a big history every amount of foo in the log is the real amount divided by bigUnit, and the recorder only
+// creates situations in which every amount the code has to compute is a whole number of units:
+//   - foo enters gauges in multiples of bigM = lcm(1..12) * lcm(1..6) units,
+//   - gauges run over at most 6 epochs, the locks of one denomination hold at most 12 tokens together,
+//   - before every epoch end the recorder checks, from the last state it READ (not from anything the code is about
+//     to compute), that lcm(1..12) * (remaining epochs) divides the remaining foo of every gauge, and ends the
+//     history otherwise.
+// Then remaining * lockAmount / (lockSum * remainingEpochs) is a whole number of units for every lock, thresholds
+// (a few thousand base units at most) are far below one share, and an amount that is not a whole number of units
+// (shown as -1) can only come from a wrong computation.  A gauge of 6..11 * bigM units holds between 2^63 and 2^64
+// base units, 12 * bigM and more lie above 2^64.
+var bigUnit = new(stdbig.Int).Exp(stdbig.NewInt(10), stdbig.NewInt(12), nil)
+
+const (
+	bigLcm12     = 27720
+	bigM         = bigLcm12 * 60
+	bigMaxGauge  = 60 * bigM // remaining * lock amount (<= 12) stays a native TLC integer
+	bigLockUnits = 12
+)
+
+func (w *world) toLog(d string, v osmomath.Int) int64 {
+	if u := w.unit[d]; u != nil {
+		q, r := new(stdbig.Int).QuoRem(v.BigInt(), u, new(stdbig.Int))
+		if r.Sign() != 0 || !q.IsInt64() || q.Int64() > 2_000_000_000 {
+			return -1
+		}
+		return q.Int64()
+	}
+	if !v.IsInt64() || v.Int64() > 2_000_000_000 {
+		return -1
+	}
+	return v.Int64()
+}
+
+func (w *world) fromLog(d string, v int64) osmomath.Int {
+	if u := w.unit[d]; u != nil {
+		return osmomath.NewIntFromBigInt(new(stdbig.Int).Mul(stdbig.NewInt(v), u))
+	}
+	return osmomath.NewInt(v)
 }
 
 type params struct {
@@ -83,18 +127,22 @@ type world struct {
 	byAddr    map[string]string // bech32 -> name
 	denoms    []string
 	par       params
+	unit      map[string]*stdbig.Int // big histories: denomination -> base units per logged unit
 	baseGauge uint64 // gauges up to this id were created by the setup (pool gauges): outside the history
 }
 
 func newWorld(t *testing.T, c config) *world {
 	w := &world{World: apphelp.New(t), names: c.Names, denoms: c.Denoms, byAddr: map[string]string{}}
+	if c.Big {
+		w.unit = map[string]*stdbig.Int{"foo": bigUnit}
+	}
 	w.Ctx = w.Ctx.WithLogger(log.NewNopLogger()).WithBlockTime(baseTime.Add(time.Duration(c.Now) * time.Second)).WithBlockHeight(1000)
 	ik := w.App.IncentivesKeeper
 	// valuation pools and their routes
 	lp := apphelp.Acct(9000)
 	_ = lp
 	for _, p := range c.Pools {
-		id := w.PrepareBalancerPoolWithCoins(sdk.NewCoin(p.A, osmomath.NewInt(p.RA)), sdk.NewCoin(p.B, osmomath.NewInt(p.RB)))
+		id := w.PrepareBalancerPoolWithCoins(sdk.NewCoin(p.A, w.fromLog(p.A, p.RA)), sdk.NewCoin(p.B, w.fromLog(p.B, p.RB)))
 		w.App.ProtoRevKeeper.SetPoolForDenomPair(w.Ctx, p.A, p.B, id)
 	}
 	// as on the real chain, fees are charged in the base coin unit
@@ -122,7 +170,7 @@ func newWorld(t *testing.T, c config) *world {
 		cs := sdk.Coins{}
 		for _, d := range c.Denoms {
 			if v := c.Fund[n][d]; v > 0 {
-				cs = cs.Add(sdk.NewCoin(d, osmomath.NewInt(v)))
+				cs = cs.Add(sdk.NewCoin(d, w.fromLog(d, v)))
 			}
 		}
 		if !cs.Empty() {
@@ -148,6 +196,9 @@ func (w *world) readParams(c config) params {
 		CreateFee: incentivestypes.CreateGaugeFee.Int64(), AddFee: incentivestypes.AddToGaugeFee.Int64(),
 		Lockable: c.Lockable, SpamMax: 100, SpamFree: "stake", DistrID: ik.GetParams(w.Ctx).DistrEpochIdentifier,
 		MinDenom: c.MinDenom, MinValue: c.MinAmount}
+	if c.Big {
+		p.SpamMax = 0 // 100 base units are less than one unit of foo; the other reward denomination of a big history (stake) is exempt
+	}
 	minv := ik.GetParams(w.Ctx).MinValueForDistribution
 	for _, d := range c.Denoms {
 		if d == "uosmo" {
@@ -176,6 +227,13 @@ func (w *world) readParams(c config) params {
 			out, err := mod.CalcOutAmtGivenIn(w.Ctx, pool, minv, d, osmomath.ZeroDec())
 			if err == nil {
 				p.MinAmt[d] = out.Amount.Int64()
+				if u := w.unit[d]; u != nil { // the smallest whole number of units that is worth the minimum
+					q, r := new(stdbig.Int).QuoRem(out.Amount.BigInt(), u, new(stdbig.Int))
+					if r.Sign() != 0 {
+						q.Add(q, stdbig.NewInt(1))
+					}
+					p.MinAmt[d] = q.Int64()
+				}
 			}
 		}()
 	}
@@ -219,11 +277,7 @@ func (w *world) coinMap(cs sdk.Coins) map[string]int64 {
 		m[d] = 0
 	}
 	for _, c := range cs {
-		if !c.Amount.IsInt64() || c.Amount.Int64() > 2_000_000_000 {
-			m[c.Denom] = -1
-		} else {
-			m[c.Denom] = c.Amount.Int64() // a denomination outside the history's set shows up as an extra key
-		}
+		m[c.Denom] = w.toLog(c.Denom, c.Amount) // a denomination outside the history's set shows up as an extra key
 	}
 	return m
 }
@@ -232,12 +286,7 @@ func (w *world) coinMap(cs sdk.Coins) map[string]int64 {
 func (w *world) balMap(ctx sdk.Context, a sdk.AccAddress) map[string]int64 {
 	m := map[string]int64{}
 	for _, d := range w.denoms {
-		v := w.App.BankKeeper.GetBalance(ctx, a, d).Amount
-		if !v.IsInt64() || v.Int64() > 2_000_000_000 {
-			m[d] = -1
-		} else {
-			m[d] = v.Int64()
-		}
+		m[d] = w.toLog(d, w.App.BankKeeper.GetBalance(ctx, a, d).Amount)
 	}
 	return m
 }
@@ -246,7 +295,7 @@ func (w *world) coinsOf(m map[string]int64) sdk.Coins {
 	cs := sdk.Coins{}
 	for _, d := range apphelp.SortedKeys(m) {
 		if m[d] != 0 {
-			cs = append(cs, sdk.Coin{Denom: d, Amount: osmomath.NewInt(m[d])})
+			cs = append(cs, sdk.Coin{Denom: d, Amount: w.fromLog(d, m[d])})
 		}
 	}
 	return cs
@@ -419,7 +468,7 @@ func (w *world) coins(d string, amt int64) sdk.Coins {
 	if amt == 0 {
 		return sdk.Coins{}
 	}
-	return sdk.Coins{sdk.Coin{Denom: d, Amount: osmomath.NewInt(amt)}}
+	return sdk.Coins{sdk.Coin{Denom: d, Amount: w.fromLog(d, amt)}}
 }
 
 func unpackResponse(res *sdk.Result, into interface{ Unmarshal([]byte) error }) error {
@@ -605,6 +654,59 @@ func (r *recorder) rewardCoins(nmax int) map[string]int64 {
 	return c
 }
 
+// big histories: foo in multiples of bigM units (mostly 6..11 of them: between 2^63 and 2^64 base units), sometimes
+// with stake beside it or stake alone; have is what the gauge holds already
+func (r *recorder) bigRewardCoins(have int64) map[string]int64 {
+	c := map[string]int64{}
+	k := int64(1 + r.rng.Intn(14))
+	if r.rng.Intn(2) == 0 {
+		k = 6 + int64(r.rng.Intn(6))
+	}
+	if have+k*bigM > bigMaxGauge {
+		k = (bigMaxGauge - have) / bigM
+	}
+	switch x := r.rng.Intn(10); {
+	case x < 6:
+		c["foo"] = k * bigM
+	case x < 9:
+		c["foo"], c["stake"] = k*bigM, r.rewardAmt()
+	default:
+		c["stake"] = r.rewardAmt()
+	}
+	if c["foo"] <= 0 {
+		delete(c, "foo")
+	}
+	return c
+}
+
+// tokens of denomination d held by all locks
+func (r *recorder) lockUnits(d string) int64 {
+	n := int64(0)
+	for _, l := range r.st.Locks {
+		n += l.C[d]
+	}
+	return n
+}
+
+// big histories: every share of the coming distribution is a whole number of units whatever the set of qualifying
+// locks is (decided on the state last read, see bigUnit)
+func (r *recorder) bigExact() bool {
+	for _, g := range r.st.Gauges {
+		rem := g.C["foo"] - g.Dist["foo"]
+		n := int64(1)
+		if !g.Perp {
+			n = g.Num - g.Filled
+		}
+		if g.C["foo"] < 0 || g.Dist["foo"] < 0 {
+			return true // not a whole number of units already: the line just written shows it
+		}
+		if rem > 0 && n > 0 && rem%(bigLcm12*n) != 0 {
+			return false
+		}
+	}
+	return true
+}
+
 func (r *recorder) someDur() int64 {
 	if r.rng.Intn(25) == 0 {
 		return 4 // not a lockable duration
@@ -634,6 +736,9 @@ func (r *recorder) nextCall(force string) call {
 			return r.nextCall("") // enough gauges for one history
 		}
 		c := call{A: "create", O: r.creator(), D: lockDenoms[rng.Intn(len(lockDenoms))], X: r.someDur(), C: r.rewardCoins(3)}
+		if r.kind == "big" {
+			c.C = r.bigRewardCoins(0)
+		}
 		c.Perp = rng.Intn(10) < 3
 		c.Num = 1
 		if !c.Perp {
@@ -643,6 +748,9 @@ func (r *recorder) nextCall(force string) call {
 				c.Num = 6 + int64(rng.Intn(7))
 			case 1:
 				c.Num = 1
+			}
+			if r.kind == "big" && c.Num > 6 {
+				c.Num = 6
 			}
 		}
 		switch rng.Intn(30) {
@@ -675,6 +783,9 @@ func (r *recorder) nextCall(force string) call {
 				c.C[d] = a
 			}
 		}
+		if r.kind == "big" {
+			c.C = r.bigRewardCoins(g.C["foo"])
+		}
 		if len(c.C) == 0 {
 			return r.nextCall("")
 		}
@@ -696,6 +807,12 @@ func (r *recorder) nextCall(force string) call {
 		default:
 			c.Amt = 1 + int64(rng.Intn(3000))
 		}
+		if r.kind == "big" && c.Amt <= r.st.Bal[o][d] {
+			c.Amt = 1 + int64(rng.Intn(2))
+			if r.lockUnits(d)+c.Amt > bigLockUnits {
+				return r.nextCall("")
+			}
+		}
 		return c
 	case x < 42: // keeper AddTokensToLockByID
 		l, ok := r.pickLock(nil)
@@ -704,6 +821,12 @@ func (r *recorder) nextCall(force string) call {
 		}
 		d := lockDenom(l)
 		c := call{A: "add", O: l.O, D: d, ID: l.ID, Amt: 1 + int64(rng.Intn(2000))}
+		if r.kind == "big" {
+			c.Amt = 1
+			if r.lockUnits(d)+c.Amt > bigLockUnits {
+				return r.nextCall("")
+			}
+		}
 		if l.C[d]+c.Amt > maxLockAmt {
 			return r.nextCall("")
 		}
@@ -833,6 +956,12 @@ func randomConfig(rng *rand.Rand, kind string) config {
 	if kind == "blocked" {
 		c.Names = append(c.Names, "blk")
 	}
+	if kind == "big" {
+		c.Big = true
+		for _, n := range names {
+			fund[n]["foo"] = 500_000_000
+		}
+	}
 	switch kind {
 	case "above": // every threshold is above the 100 units of the code's additional rule (raised below if a pool makes it smaller)
 		c.MinAmount = 110 + int64(rng.Intn(500))
@@ -896,6 +1025,9 @@ func TestRecord(t *testing.T) {
 		if h%6 == 4 {
 			kind = "nomin"
 		}
+		if h%6 == 3 {
+			kind = "big"
+		}
 		if k := os.Getenv("VERIF_KIND"); k != "" {
 			kind = k
 		}
@@ -918,7 +1050,24 @@ func TestRecord(t *testing.T) {
 		target := int64(emin + rng.Intn(emax-emin+1))
 		failedBefore := counts["epoch:refused"]
 		for guard := 0; r.epochs < target && guard < 100*emax; guard++ {
-			r.step(r.nextCall(""))
+			c := r.nextCall("")
+			if kind == "big" && c.A == "epoch" {
+				if !r.bigExact() {
+					counts["big:ended-before-inexact-share"]++
+					break
+				}
+				for _, g := range r.st.Gauges {
+					if rem := g.C["foo"] - g.Dist["foo"]; g.Status == "active" && len(g.C) > 0 && g.C["stake"] == g.Dist["stake"] && g.C["uosmo"] == g.Dist["uosmo"] {
+						switch {
+						case rem >= 6*bigM && rem < 12*bigM: // 2^63 < 9.97e18 .. 1.83e19 < 2^64
+							counts["big:epoch-with-single-denom-gauge-remaining-in-2^63..2^64"]++
+						case rem >= 12*bigM:
+							counts["big:epoch-with-single-denom-gauge-remaining-above-2^64"]++
+						}
+					}
+				}
+			}
+			r.step(c)
 			if counts["epoch:refused"] > failedBefore && (kind == "zero" || kind == "blocked") {
 				break // the hook fails from here on: nothing more to see in this history
 			}
